@@ -37,9 +37,14 @@ def gen_cases(tier, seed):
     for i in range(8 if tier == 'quick' else 120):
         r = random.Random(rng.randrange(1 << 30))
         cases.append({'scenario': 'mix', 'mode': 'async' if i % 4 == 3 else 'sync', 'capacity': r.choice([2, 3, 4]), 'callers': r.choice([3, 4, 5]), 'per_caller': 6,
-                      'workers': r.choice([1, 2]), 'batch': 0, 'fuzz': False, 'process': True, 'seed': r.randrange(1 << 30)})
+                      'workers': r.choice([1, 2]), 'batch': 0, 'fuzz': False, 'process': True, 'pt': i % 2 == 1, 'seed': r.randrange(1 << 30)})
     for i in range(3 if tier == 'quick' else 20):
         cases.append({'scenario': 'wait-bound', 'mode': 'async' if i % 2 else 'sync', 'capacity': 1, 'seed': rng.randrange(1 << 30)})
+    # a big request in transfer to a busy worker process must not hold up other callers (three queue layouts)
+    for i, (layout, mode) in enumerate([('PT', 'sync'), ('PT', 'async'), ('P', 'sync'), ('TP', 'sync'), ('P', 'async'), ('TP', 'async')]):
+        if tier == 'quick' and i >= 4:
+            break
+        cases.append({'scenario': 'stalled-pipe', 'layout': layout, 'mode': mode, 'capacity': 2, 'seed': rng.randrange(1 << 30)})
     # the same bound while competing callers keep taking every freed slot: the waiter is woken again and again and loses each race
     for i in range(4 if tier == 'quick' else 24):
         cases.append({'scenario': 'wait-bound', 'contended': True, 'mode': 'sync' if i % 2 else 'async', 'capacity': 1 + (i // 2) % 2,
@@ -102,6 +107,8 @@ def run_case(case):
     CountingCondition.waits = {}
     dr = watch.DeathRecorder().install()
 
+    if case['scenario'] == 'stalled-pipe':
+        return _stalled_pipe(case, viol, obs, SV, real_threading, dr)
     if case['scenario'] == 'wait-bound':
         if case.get('contended'):
             return _wait_bound_contended(case, viol, obs, SV, real_threading, dr)
@@ -113,6 +120,11 @@ def run_case(case):
         from mpservice.mpserver import ProcessServlet
 
         servlet = ProcessServlet(ST.TagWorker, cpus=[None] * case['workers'], tag='A')
+        if case.get('pt'):
+            # first stage in processes, last stage in a thread: the server's input queue is a pipe, its output queue is not
+            from mpservice.mpserver import SequentialServlet
+
+            servlet = SequentialServlet(servlet, ThreadServlet(ST.TagWorker, tag='B', num_threads=1))
     else:
         servlet = ThreadServlet(ST.TagWorker, tag='A', num_threads=case['workers'], **kw)
     is_async = case['mode'] == 'async'
@@ -132,9 +144,15 @@ def run_case(case):
     fz.add_site(SV.Server._enqueue, 'self._pipeline_notfull.wait(', prob=0.4, delay=0.003, where='after', name='sync-after-wait')
     fz.add_site(SV.Server._gather_output, 'fut = pipeline.pop(uid)', prob=0.1, delay=0.002, where='after', name='gather-after-pop')
 
-    def note(tok, outcome, bp, waits_before, tident):
+    def note(tok, outcome, bp, waits_before, tident, elapsed=0.0, dl=None):
         with lock:
             obs['requests'] += 1
+            # wall-clock margins of 1.5 s: a rejection under backpressure involves no waiting at all; without it, nothing waits beyond its timeout
+            if bp and isinstance(outcome, ServerBacklogFull) and elapsed > 1.5:
+                viol.append({'mech': 'backlog/backpressure-rejection-delayed', 'msg': f'backpressure=True: the caller was held {elapsed:.2f}s before it was rejected with {outcome!r}'})
+            if dl is not None and isinstance(outcome, (ServerBacklogFull, MpTimeout, TimeoutError)) and elapsed > dl + 1.5:
+                viol.append({'mech': 'backlog/no-backpressure-wait-exceeds-timeout', 'msg': f'call with timeout {dl}s (backpressure={bp}) came back after {elapsed:.2f}s with {outcome!r}'})
+            obs['max_overshoot_ms'] = max(obs.get('max_overshoot_ms', 0), int(1000 * (elapsed - (dl or 0)))) if isinstance(outcome, (ServerBacklogFull, MpTimeout, TimeoutError)) else obs.get('max_overshoot_ms', 0)
             if isinstance(outcome, ServerBacklogFull):
                 n_, x_ = outcome.args
                 rejected.add((tok[1], tok[2]))
@@ -178,12 +196,14 @@ def run_case(case):
                 dl = r.choice([5, 5, 0.003, 0.006, 0.02]) if not BIG['on'] else r.choice([20, 20, 0.02, 0.08, 0.2])
                 w0 = CountingCondition.waits.get(tident, 0)
                 sample()
+                t_call = time.monotonic()
                 try:
                     y = server.call(tok, timeout=dl, backpressure=bp)
                 except BaseException as e:  # noqa: BLE001
                     y = e
+                el = time.monotonic() - t_call
                 sample()
-                note(tok, y, bp, w0, tident)
+                note(tok, y, bp, w0, tident, el, dl)
 
         ths = [threading.Thread(target=caller, args=(c,), name=f'caller-{c}') for c in range(case['callers'])]
         for t in ths:
@@ -228,12 +248,14 @@ def run_case(case):
                     obs['cancelled_tasks'] += 1
                     obs['requests'] += 1
                     continue
+                t_call = time.monotonic()
                 try:
                     y = await server.call(tok, timeout=dl, backpressure=bp)
                 except Exception as e:  # noqa: BLE001
                     y = e
+                el = time.monotonic() - t_call
                 sample()
-                note(tok, y, bp, 0, 0)
+                note(tok, y, bp, 0, 0, el, dl)
 
         await asyncio.gather(*[caller(c) for c in range(case['callers'])])
 
@@ -315,6 +337,96 @@ def run_case(case):
     if viol or case.get('process'):
         res['exit_after'] = True
     return res
+
+
+def _stalled_pipe(case, viol, obs, SV, real_threading, dr):
+    """The only worker process is busy for 3 s and a 4 MB request sits (partly) in the pipe in front of it; the server is full.  A caller with
+    backpressure must be rejected at once, one without must give up by its own deadline -- nobody may be held up by the big request's
+    transfer.  Layouts: process stage only / process stage then thread stage / thread stage then process stage."""
+    from mpservice.mpserver import AsyncServer, ProcessServlet, SequentialServlet, Server, ServerBacklogFull, ThreadServlet
+
+    P = lambda tag: ProcessServlet(ST.TagWorker, cpus=[None], tag=tag)  # noqa: E731
+    T = lambda tag: ThreadServlet(ST.TagWorker, tag=tag, num_threads=1)  # noqa: E731
+    servlet = {'P': lambda: P('A'), 'PT': lambda: SequentialServlet(P('A'), T('B')), 'TP': lambda: SequentialServlet(T('B'), P('A'))}[case['layout']]()
+    slow = ('tok', 0, 0, (('A', 'sleep', 3.0),))
+    big = ('tok', 1, 0, (('_', 'pad', 'x' * 4_000_000),))
+    box = {}
+
+    def judge():
+        c, d = box.get('C'), box.get('D')
+        if not isinstance(c[0], ServerBacklogFull) or c[1] > 1.5:
+            viol.append({'mech': 'backlog/backpressure-rejection-delayed', 'msg': f'layout {case["layout"]}, {case["mode"]}: full server, backpressure=True: got {c[0]!r:.80} after {c[1]:.2f}s (a 4 MB request was in transfer to a busy worker)'})
+        else:
+            obs['rejected_at_once'] = obs.get('rejected_at_once', 0) + 1
+        if d[1] > 0.5 + 1.5:
+            viol.append({'mech': 'backlog/no-backpressure-wait-exceeds-timeout', 'msg': f'layout {case["layout"]}, {case["mode"]}: timeout 0.5 s, backpressure=False: got {d[0]!r:.80} after {d[1]:.2f}s'})
+        elif isinstance(d[0], ServerBacklogFull):
+            obs['rejected_after_wait'] = obs.get('rejected_after_wait', 0) + 1
+
+    def timed(f):
+        t0 = time.monotonic()
+        try:
+            y = f()
+        except BaseException as e:  # noqa: BLE001
+            y = e
+        return y, time.monotonic() - t0
+
+    def sync_run():
+        with Server(servlet, capacity=2) as server:
+            ta = threading.Thread(target=lambda: box.__setitem__('A', timed(lambda: server.call(slow, timeout=30))), name='caller-A')
+            ta.start()
+            time.sleep(0.4)
+            tb = threading.Thread(target=lambda: box.__setitem__('B', timed(lambda: server.call(big, timeout=30, backpressure=False))), name='caller-B')
+            tb.start()
+            time.sleep(0.4)
+            tcs = [threading.Thread(target=lambda: box.__setitem__('C', timed(lambda: server.call(('tok', 2, 0, ()), timeout=5, backpressure=True))), name='caller-C'),
+                   threading.Thread(target=lambda: box.__setitem__('D', timed(lambda: server.call(('tok', 3, 0, ()), timeout=0.5, backpressure=False))), name='caller-D')]
+            for t in tcs:
+                t.start()
+            for t in tcs + [ta, tb]:
+                t.join()
+
+    async def async_run():
+        async with AsyncServer(servlet, capacity=2) as server:
+            async def atimed(coro):
+                t0 = time.monotonic()
+                try:
+                    y = await coro
+                except Exception as e:  # noqa: BLE001
+                    y = e
+                return y, time.monotonic() - t0
+
+            ta = asyncio.ensure_future(atimed(server.call(slow, timeout=30)))
+            await asyncio.sleep(0.4)
+            tb = asyncio.ensure_future(atimed(server.call(big, timeout=30, backpressure=False)))
+            await asyncio.sleep(0.4)
+            t0 = time.monotonic()
+            c, d = await asyncio.gather(atimed(server.call(('tok', 2, 0, ()), timeout=5, backpressure=True)),
+                                        atimed(server.call(('tok', 3, 0, ()), timeout=0.5, backpressure=False)))
+            # measured from the moment both were issued (a frozen event loop delays the very start of the coroutines)
+            box['C'] = c
+            box['D'] = d
+            box['loop_stall'] = time.monotonic() - t0
+            box['A'], box['B'] = await ta, await tb
+
+    try:
+        watch.run_bounded((lambda: asyncio.run(async_run())) if case['mode'] == 'async' else sync_run, 60, 'stalled-pipe scenario')
+    except watch.Hang as h:
+        viol.append({'mech': 'backlog/hang', 'msg': 'stalled-pipe scenario did not finish', 'stacks': h.stacks})
+        return {'violations': viol, 'obs': obs, 'exit_after': True}
+    finally:
+        SV.threading = real_threading
+        dr.uninstall()
+    obs['requests'] = 4
+    obs['stalled_pipe_runs'] = 1
+    judge()
+    if case['mode'] == 'async' and box.get('loop_stall', 0) > 0.5 + 1.5:
+        viol.append({'mech': 'backlog/no-backpressure-wait-exceeds-timeout', 'msg': f'layout {case["layout"]}, async: the two short requests took {box["loop_stall"]:.2f}s to come back (event loop held up)'})
+    for k in ('A', 'B'):
+        if isinstance(box.get(k, (None,))[0], BaseException):
+            viol.append({'mech': 'backlog/accepted-request-failed', 'msg': f'request {k} got {box[k][0]!r:.100}'})
+    return {'violations': viol, 'obs': obs, 'nontrivial': True, 'sig': hash(('stalled-pipe', case['mode'], case['layout'])) & 0xFFFFFFFFFFFF, 'exit_after': True,
+            'sample': {'scenario': 'stalled-pipe', 'mode': case['mode'], 'layout': case['layout'], 'C': repr(box['C'][0])[:60], 'C_s': round(box['C'][1], 3), 'D': repr(box['D'][0])[:60], 'D_s': round(box['D'][1], 3)}}
 
 
 def _wait_bound_contended(case, viol, obs, SV, real_threading, dr):
